@@ -67,7 +67,9 @@ def generate_voxel_grid(bbox, szval, use_cubes=False):
 
     # It is possible to use cubes instead of cuboids
     if use_cubes:
-        min_val = min(*steps)
+        # A direction in which the bounding box is flat has a zero step; the cube size comes from the other directions
+        nonzero_steps = [stp for stp in steps if stp > 0.0]
+        min_val = min(nonzero_steps) if nonzero_steps else 0.0
         steps = [min_val for _ in range(0, 3)]
 
     # Find range in each direction
